@@ -5,7 +5,8 @@ from checks import common_loops as cl, common_core as cc
 PID = "C01"
 RULE = ("One process per configuration drawn from event loops {1,2,4,8} x submitter threads {1,2,4,16} x tasks per submitter {200..6000} x priority mix (constant / 5 levels / random i64 incl. MIN,MAX) x body (instant, suspend, 1 ms delay, busy) x pool max_size {1,4,256}; "
         "bursts exceed the local queue capacity (256) so overflow-to-global, every-61st-pop and steal paths are exercised. Every task bumps a per-uid atomic counter as its first statement. A watchdog measures the CPU time each submitter spends inside one submit_task call (C04's clause). "
-        "Oracle after all submitters returned: every uid has count 1; a count > 1 is a duplicate; 'stranded' = uids still at 0 while no new execution happened for 3 s although heartbeat probe tasks submitted meanwhile do execute (the runtime keeps scheduling). "
+        "Oracle after all submitters returned: every uid has count 1; a count > 1 is a duplicate; 'stranded' = uids still at 0 while no new execution happened for 3 s although heartbeat probe tasks submitted meanwhile do execute (the runtime keeps scheduling). At a stall the runtime's own threads are sampled from /proc/self/task for 400 ms (voluntary context switches, CPU time): "
+        "loop threads that spin without ever sleeping = wedged (the known coroutine-migration defect, only with two or more loops); stranded tasks while every loop thread keeps cycling are a different signature. Submissions the runtime refused (error handle) are not counted as lost. "
         "A submitter stuck inside submit_task makes the case inconclusive here and is reported by C04. Signatures carry the configuration class (one-loop-one-submitter / one-submitter-many-loops / many-submitters). Non-trivial = >= 2 submitters and bursts > 256; distinct = configuration.")
 
 def run(tier, seed, t0):
